@@ -36,7 +36,7 @@ def run_units(fn, units, jobs=None, unit_timeout=300.0, progress=None):
         while pending and len(running) < jobs:
             idx, unit = pending.pop()
             pc, cc = ctxmp.Pipe(duplex=False)
-            p = ctxmp.Process(target=_child, args=(cc, fn, unit), daemon=True)
+            p = ctxmp.Process(target=_child, args=(cc, fn, unit), daemon=False)
             p.start()
             cc.close()
             running[pc] = (idx, unit, p, time.time(), [])
